@@ -33,9 +33,12 @@ class Ledger:
     # A new lineage (fresh algorithm instance in a state-persisting mode) is legitimate for the first
     # update of a study and after an injected loss / corruption of the persisted state - not otherwise.
     self.allow_fresh = True
+    self.any_deleted = False
 
   def observe(self, ids_now):
     ids_now = set(ids_now)
+    if self.present - ids_now:
+      self.any_deleted = True
     for i in ids_now - self.present:
       self.inc[i] = self.inc.get(i, 0) + 1
     self.present = ids_now
@@ -56,6 +59,11 @@ class Ledger:
     completed_now = {i for i, s in status_now.items() if s == 'COMPLETED'}
     active_now = {i for i, s in status_now.items() if s == 'ACTIVE'}
     got_ids = list(ev['completed'])
+    order = list(ev.get('completed_order') or got_ids)
+    if order != sorted(order) and not self.reused_ids() and not self.any_deleted:
+      # PolicySupporter.GetTrials documents "in order of increasing Trial ID"; order-sensitive algorithms
+      # (eagle, NSGA-II, CMA-ES) end up in another state otherwise. Checked only while no id was deleted.
+      v.append(('completed-trials-not-in-id-order', f'update() received completed trials in the order {order}'))
     if len(set(got_ids)) != len(got_ids):
       v.append(('completed-trial-delivered-twice', f'update() received duplicates: {got_ids}'))
     got = {(i, self.inc.get(i, 1)) for i in got_ids}
